@@ -368,6 +368,59 @@ def opHeap : P String := do
   let w := (s.written.filter (fun b => 1 ≤ b && b ≤ Heap.nProt)).eraseDups
   pure (join ("w" :: w.map toString))
 
+def pLabels : P (List (Option Int)) := do
+  let n ← pNat
+  pMany n (do
+    let t ← tok
+    if t == "n" then pure none else
+    match t.toInt? with
+    | some z => pure (some z)
+    | none => throw s!"label:{t}")
+
+/-- `fastint <ud> <fd> labels COO` → COO (same order of positions; zeros kept) -/
+def opFastInt : P String := do
+  let ud ← pFloat; let fd ← pFloat
+  let labels ← pLabels
+  let A ← pCoo
+  pure (fCoo (Graph.fastIntersection floatT labels ud fd A))
+
+/-- `catint <ud> <fd> labels COO` → categorical intersection incl. reset_local_connectivity -/
+def opCatInt : P String := do
+  let ud ← pFloat; let fd ← pFloat
+  let labels ← pLabels
+  let A ← pCoo
+  pure (fCoo (Graph.categoricalIntersection floatT labels ud fd A))
+
+def fOptCoo : Option (Graph.Coo Float) → String
+  | some A => fCoo A
+  | none => "err"
+
+/-- `ssetunion COO COO` -/
+def opSsetUnion : P String := do
+  let A ← pCoo; let B ← pCoo
+  pure (fOptCoo (Graph.ssetUnion 1e-8 A B))
+
+/-- `ssetint <rightComplement 0/1> <w> COO COO` -/
+def opSsetInt : P String := do
+  let rc ← pNat; let w ← pFloat
+  let A ← pCoo; let B ← pCoo
+  pure (fOptCoo (Graph.ssetIntersection floatT 1e-8 1e-4 (rc == 1) w A B))
+
+/-- `reset_local_connectivity(simplicial_set, reset_local_metric)`: `resetlc <metric 0/1> <n> COO` -/
+def opResetLc : P String := do
+  let metric ← pNat
+  let n ← pNat
+  let A ← pCoo
+  if metric == 0 then pure (fCoo (Graph.resetLocalConnectivity A)) else
+  let N := Graph.rowMaxNormalize A
+  -- reset_local_metrics: each CSR row re-calibrated to total log2(15) by `reprocess_row`
+  let target := Float.log2 15.0
+  let rows := (List.range n).map (fun i =>
+    let row := N.filter (·.1 == i)
+    let vals := Graph.reprocessRow floatT 1e-5 target 32 (row.map (·.2.2))
+    (row.zip vals).map (fun (t, v) => (t.1, t.2.1, v)))
+  pure (fCoo (Graph.unionTranspose rows.flatten))
+
 def dispatch (op : String) : P String :=
   match op with
   | "knn" => opKnn
@@ -380,6 +433,11 @@ def dispatch (op : String) : P String :=
   | "smetric" => opSMetric
   | "grad" => opGrad
   | "heap" => opHeap
+  | "fastint" => opFastInt
+  | "catint" => opCatInt
+  | "ssetunion" => opSsetUnion
+  | "ssetint" => opSsetInt
+  | "resetlc" => opResetLc
   | "tau" => opTau
   | "sgd" => opSgd
   | "eps" => opEps
